@@ -1593,6 +1593,9 @@ fn run_case(case: &Case, known: &KnownFindings) -> CaseReport {
     rep
 }
 
+#[path = "c06/bigjoin.rs"]
+mod bigjoin;
+
 fn main() {
     let mut check = Check::new("C06", "exploration");
     check.assume("truth = the frames of the stream in the raw events.jsonl (own reader); a frame a subscriber must see is a frame that is in the log once the producer finished");
@@ -1612,6 +1615,14 @@ fn main() {
         GroupOpts { cases: n, threads: shard_threads(), watchdog_s: 900, max_shrink_iters: 6 },
         case_strategy,
         |c: &Case| run_case(c, &known),
+    );
+    let n = check.cases(60, 900);
+    check.group(
+        "thread_big_join",
+        "thread stream, multi-MiB message frames (0.5-6 MiB) appended through the engine's own store; the instant each frame is broadcast (in-process receiver as clock) a fresh subscriber opens GET /threads/{id}/events on the real router; every subscriber must receive every frame up to the largest seq it saw, once, in order. non-trivial = a frame of >= 512 KiB; distinct by case hash",
+        GroupOpts { cases: n, threads: 4, watchdog_s: 900, max_shrink_iters: 10 },
+        bigjoin::strategy,
+        bigjoin::run,
     );
     check.finish();
 }
